@@ -98,7 +98,18 @@ def judge_events(ctx, part, bad):
 def bind(ctx, part, cmd, parts):
     ev = ctx.work / f"{part}.ndjson"
     stats = ctx.work / f"{part}.stats.json"
-    vh(cmd + [f"out={ev}", f"stats={stats}"])
+    p = vh(cmd + [f"out={ev}", f"stats={stats}"], check=False)
+    hang = Path(str(ev) + ".hang")
+    if p.returncode == 3 and hang.exists():
+        # the pass did not return on one case: that is a verdict about the code, not tool trouble
+        e = json.loads(hang.read_text())
+        ctx.violation(f"[hang] the hyphenation pass did not return within {e['hang']}s; lh={e['lh']} rh={e['rh']} "
+                      f"font={json.dumps(e['font'])} script={json.dumps(e['script'])[:600]}", {"part": part, "event": e})
+        ctx.cov["parts"].setdefault(part, {})["hang"] = 1
+        return 0
+    if p.returncode != 0:
+        log(p.stderr.decode(errors="replace")[-3000:])
+        raise ToolError(f"harness failed rc={p.returncode}: vh {' '.join(cmd)}")
     st = json.loads(stats.read_text())
     n, bad = validate_calls(ctx, "Trace_HyphenList", "Trace_HyphenList.cfg", ev, parts=parts)
     ctx.add_bound(part, n, st["nontrivial"], distinct_events=st["distinct"], panics=st["panics"],
@@ -117,33 +128,43 @@ def bind(ctx, part, cmd, parts):
 
 
 def word_models(ctx):
-    q = ctx.quick
-    res = tlc_model(ctx, "HyphenList.words", "MC_HyphenList", "MC_HyphenList.cfg", expect_actions=ACTIONS, workers=2)
-    tlc_model(ctx, "HyphenList.words_len5", "MC_HyphenList", "MC_HyphenList_len5.cfg", workers=2, coverage=False)
+    tlc_model(ctx, "HyphenList.words", "MC_HyphenList", "MC_HyphenList.cfg", expect_actions=ACTIONS, workers=2)
     tlc_model(ctx, "HyphenList.words_mins", "MC_HyphenList", "MC_HyphenList_mins.cfg", workers=2, coverage=False)
-    for mod, cfg, what in NEGS:
-        tlc_expect_refuted(mod, cfg, what, workers=2)
-    ctx.cov["parts"]["HyphenList.negative_controls_refuted"] = len(NEGS)
+
+
+def word_models_len5(ctx):
+    tlc_model(ctx, "HyphenList.words_len5", "MC_HyphenList", "MC_HyphenList_len5.cfg", workers=2, coverage=False)
+
+
+def negative_controls(ctx, negs, name):
+    for mod, cfg, what in negs:
+        tlc_expect_refuted(mod, cfg, what, workers=1)
+    ctx.cov["parts"][name] = ctx.cov["parts"].get(name, 0) + len(negs)
 
 
 def word_models_thorough(ctx):
     if ctx.quick:
         return
-    tlc_model(ctx, "HyphenList.words_thorough", "MC_HyphenList", "MC_HyphenList_thorough.cfg", workers=6,
-              coverage=False, xmx="8g", timeout=3000)
-    tlc_model(ctx, "HyphenList.words_len6", "MC_HyphenList", "MC_HyphenList_len6.cfg", workers=6,
+    tlc_model(ctx, "HyphenList.words_all_kinds", "MC_HyphenList", "MC_HyphenList_thorough.cfg", workers=4,
+              coverage=False, xmx="6g", timeout=3000)
+    tlc_model(ctx, "HyphenList.words_quick_kinds_len5", "MC_HyphenList", "MC_HyphenList_quick5.cfg", workers=4,
+              coverage=False, xmx="6g", timeout=3000)
+    tlc_model(ctx, "HyphenList.words_len6", "MC_HyphenList", "MC_HyphenList_len6.cfg", workers=4,
+              coverage=False, xmx="6g", timeout=3000)
+    tlc_model(ctx, "HyphenList.words_mins_len5", "MC_HyphenList", "MC_HyphenList_mins_thorough.cfg", workers=4,
               coverage=False, xmx="6g", timeout=3000)
 
 
 def recon_models(ctx):
-    if not (SPECS / "MC_HyphenRecon.tla").exists():
-        return
-    sfx = "" if ctx.quick else "_thorough"
-    tlc_model(ctx, "HyphenRecon.tex_satisfies_relation", "MC_HyphenRecon", f"MC_HyphenRecon{sfx}.cfg",
-              workers=4 if ctx.quick else 6, coverage=False, xmx="6g", timeout=3000)
-    for mod, cfg, what in RECON_NEGS:
-        tlc_expect_refuted(mod, cfg, what, workers=2)
-    ctx.cov["parts"]["HyphenRecon.negative_controls_refuted"] = len(RECON_NEGS)
+    tlc_model(ctx, "HyphenRecon.tex_satisfies_relation", "MC_HyphenRecon",
+              "MC_HyphenRecon.cfg" if ctx.quick else "MC_HyphenRecon_mins.cfg",
+              workers=3 if ctx.quick else 4, coverage=False, xmx="4g", timeout=3000)
+    negative_controls(ctx, RECON_NEGS, "HyphenRecon.negative_controls_refuted")
+    if not ctx.quick:
+        tlc_model(ctx, "HyphenRecon.more_rules", "MC_HyphenRecon", "MC_HyphenRecon_thorough.cfg", workers=4,
+                  coverage=False, xmx="6g", timeout=3000)
+        tlc_model(ctx, "HyphenRecon.words_len5", "MC_HyphenRecon", "MC_HyphenRecon_len5.cfg", workers=4,
+                  coverage=False, xmx="6g", timeout=3000)
 
 
 def run(ctx):
@@ -162,19 +183,22 @@ def run(ctx):
         "-1, 5, 61..70).  non-trivial = events whose `after` holds at least one inserted discretionary "
         "(counted by the harness)."
     )
-    with cf.ThreadPoolExecutor(max_workers=3) as ex:
-        futs = [ex.submit(word_models, ctx), ex.submit(recon_models, ctx), ex.submit(word_models_thorough, ctx)]
+    with cf.ThreadPoolExecutor(max_workers=6) as ex:
+        futs = [ex.submit(recon_models, ctx), ex.submit(word_models, ctx), ex.submit(word_models_len5, ctx),
+                ex.submit(word_models_thorough, ctx),
+                ex.submit(negative_controls, ctx, NEGS[:4], "HyphenList.negative_controls_refuted"),
+                ex.submit(negative_controls, ctx, NEGS[4:], "HyphenList.negative_controls_refuted")]
         bind(ctx, "HyphenList.unit_test_inputs", ["c14-unit"], parts=1)
         if q:
-            bind(ctx, "HyphenList.text_cmr10", ["c14-text", f"seed={ctx.seed}", "n=1200"], parts=4)
-            bind(ctx, "HyphenList.synthetic_fonts", ["c14-synth", f"seed={ctx.seed}", "n=3000"], parts=4)
-            bind(ctx, "HyphenList.structural", ["c14-struct", "maxlen=3", "tokens=13"], parts=3)
+            bind(ctx, "HyphenList.text_cmr10", ["c14-text", f"seed={ctx.seed}", "n=900"], parts=3)
+            bind(ctx, "HyphenList.synthetic_fonts", ["c14-synth", f"seed={ctx.seed}", "n=2400"], parts=3)
+            bind(ctx, "HyphenList.structural", ["c14-struct", "maxlen=3", "tokens=13"], parts=2)
         else:
-            bind(ctx, "HyphenList.text_cmr10", ["c14-text", f"seed={ctx.seed}", "n=40000", "extremes=1"], parts=12)
-            bind(ctx, "HyphenList.synthetic_fonts", ["c14-synth", f"seed={ctx.seed}", "n=150000"], parts=12)
-            bind(ctx, "HyphenList.synthetic_fonts_simple", ["c14-synth", f"seed={ctx.seed + 1}", "n=50000", "level=0"], parts=12)
+            bind(ctx, "HyphenList.text_cmr10", ["c14-text", f"seed={ctx.seed}", "n=25000", "extremes=1"], parts=12)
+            bind(ctx, "HyphenList.synthetic_fonts", ["c14-synth", f"seed={ctx.seed}", "n=100000"], parts=12)
+            bind(ctx, "HyphenList.synthetic_fonts_simple", ["c14-synth", f"seed={ctx.seed + 1}", "n=30000", "level=0"], parts=12)
             bind(ctx, "HyphenList.structural", ["c14-struct", "maxlen=4", "tokens=17", "mins=1:1"], parts=12)
-            bind(ctx, "HyphenList.structural_mins", ["c14-struct", "maxlen=3", "tokens=20", "mins=0:0,2:1,1:2,2:3,3:2,4:4"], parts=12)
+            bind(ctx, "HyphenList.structural_mins", ["c14-struct", "maxlen=3", "tokens=19", "mins=0:0,2:1,1:2,2:3,3:2,4:4"], parts=12)
         for f in futs:
             f.result()
     ctx.assumptions += [
@@ -207,8 +231,13 @@ def replay(path):
         src = ctx.work / "in.ndjson"
         src.write_text(json.dumps(e) + "\n")
         out = ctx.work / "replay.ndjson"
-        p = vh(["c14-replay", f"in={src}", f"out={out}"])
+        p = vh(["c14-replay", f"in={src}", f"out={out}", "hang=20"], check=False)
         print(p.stderr.decode(errors="replace").strip())
+        if p.returncode == 3:
+            print(f"VIOLATION property=C14 replay={path}")
+            return 1
+        if p.returncode != 0:
+            raise ToolError(f"harness failed rc={p.returncode}")
         n, bad = validate_calls(ctx, "Trace_HyphenList", "Trace_HyphenList.cfg", out, parts=1)
         if not bad:
             print("accepted by the strict specification")
@@ -358,7 +387,7 @@ def selftest(ctx):
         for e in missed[:3]:
             log("  accepted although corrupted: " + e["mutation"] + " :: " + show(e["after"]))
         raise ToolError(f"selftest: {len(missed)} corrupted events were accepted / explained by a recorded deviation")
-    for mod, cfg, what in NEGS + (RECON_NEGS if (SPECS / "MC_HyphenRecon.tla").exists() else []):
+    for mod, cfg, what in NEGS + RECON_NEGS:
         tlc_expect_refuted(mod, cfg, what, workers=2)
     log("[selftest] negative controls refuted")
     ctx.add_bound("HyphenList.selftest", n2, n2)
